@@ -9,6 +9,12 @@ SCHED_TIE = ["h_sched_Schedule", "h_sched_isReady", "h_sched_Status", "h_sched_S
              "pred_isFinished", "pred_isSucceed", "pred_runningCount", "nodeSignalSkeleton", "signalSkeleton"]
 
 
+def _ties_of(area):
+    import re
+    p = os.path.join(common.LEAN, "BdModel", "Tie", area + ".lean")
+    return re.findall(r"^theorem tie_(\w+) ", open(p).read(), re.M) if os.path.exists(p) else []
+
+
 def _all_sched_ties():
     import re
     p = os.path.join(common.LEAN, "BdModel", "Tie", "Sched.lean")
@@ -16,6 +22,31 @@ def _all_sched_ties():
 
 
 SCHED_TIE = _all_sched_ties()
+
+
+def gen_big_case(rng, k):
+    """a larger, plain DAG (12-30 steps, sparse, forward AND backward references in listing order): run first in each
+    harness process, where node ids start at 1 (id-dependent bookkeeping such as edge keys is exercised across digit lengths)"""
+    n = rng.randint(12, 30)
+    order = list(range(n)); rng.shuffle(order)
+    pos = {v: i for i, v in enumerate(order)}
+    nodes = []
+    for i in range(n):
+        deps = [j for j in range(n) if pos[j] < pos[i] and rng.random() < 2.5 / n]
+        nodes.append({"deps": deps, "cf": False, "cs": False, "limit": 0, "pre": 0, "prev": 0, "fails": 0, "obeys": True, "sig": "", "rep": False})
+    # edge pairs whose decimal ids concatenate to the same digits (id = listing index + 1 in a fresh process):
+    # a -> (10b+c) and (10a+b) -> c, e.g. 1 -> 12 and 11 -> 2
+    triples = [(a, b, c) for a in range(1, 10) for b in range(0, 10) for c in range(1, 10)]
+    rng.shuffle(triples)
+    for a, b, c in triples:
+        u1, v1, u2, v2 = a, 10 * b + c, 10 * a + b, c
+        if max(u1, v1, u2, v2) > n or v1 < 10 or len({u1, v1, u2, v2}) < 4:
+            continue
+        if pos[u1 - 1] < pos[v1 - 1] and pos[u2 - 1] < pos[v2 - 1]:
+            for (u, v) in ((u1, v1), (u2, v2)):
+                if u - 1 not in nodes[v - 1]["deps"]:
+                    nodes[v - 1]["deps"].append(u - 1)
+    return {"id": "c%d" % k, "nodes": nodes, "maxActive": 0, "handlers": [0, 0, 0, 0], "stopAfter": -1, "seed": rng.randrange(1 << 30), "dry": False}
 
 
 def gen_case(rng, k, maxn):
@@ -191,8 +222,11 @@ def run_stream(chk, prop, replay=None):
                 cases.append(c)
         ncases = 400 if chk.tier == "quick" else 4000
         maxn = 8 if chk.tier == "quick" else 12
+        big = [gen_big_case(chk.rng, 900000 + k) for k in range(8)]
         for k in range(ncases):
             cases.append(gen_case(chk.rng, k, maxn))
+        # run_harness deals cases[i::8] to 8 processes: put one big case at the head of each
+        cases = big + cases
     results = run_harness(binp, cases)
     stat = {"stopped": 0, "dry": 0, "with_retry": 0, "with_failure": 0, "with_skip": 0, "limited": 0, "ops_total": 0,
             "nodes_total": 0, "finished": 0, "hang": 0}
@@ -267,5 +301,5 @@ NOTES = {
 def run_property(chk, prop, replay=None):
     chk.trusted = common.TRUSTED_COMMON + ["quiescence discipline of the scheduler harness (one completion released at a time)"]
     chk.assumptions = [NOTES.get(prop, "")]
-    common.lean_obligations(chk, "BdModel/Props/%s.lean" % prop, {"Sched": SCHED_TIE}, extra_targets=["BdModel.Sched.Tables"])
+    common.lean_obligations(chk, "BdModel/Props/%s.lean" % prop, {"Sched": SCHED_TIE, "Graph": _ties_of("Graph")}, extra_targets=["BdModel.Sched.Tables"])
     run_stream(chk, prop, replay)
